@@ -44,6 +44,30 @@ def gen_keys(rng, n, style):
 
 
 def seq_history(rng, kind):
+    if kind == "delete" and rng.chance(1, 3):
+        # grow, then drain: a tree of 3-5 levels is built and then emptied from the front, the back, the middle or at
+        # random, so that leaves merge, inner nodes underflow and borrow from / merge with their left and right siblings,
+        # and the root collapses -- with a dump (validated) after every erase and bound queries in between
+        n = rng.range(20, 140)
+        keys = gen_keys(rng, n, rng.choice(["sorted", "reverse", "random"]))
+        ops = ["i:%d:%d" % k for k in keys] + ["d"]
+        distinct = sorted(set(keys))
+        order = rng.choice(["front", "back", "middle", "random"])
+        if order == "back":
+            distinct.reverse()
+        elif order == "middle":
+            mid = len(distinct) // 2
+            distinct = [distinct[mid + (-1) ** i * ((i + 1) // 2)] for i in range(len(distinct)) if 0 <= mid + (-1) ** i * ((i + 1) // 2) < len(distinct)]
+        elif order == "random":
+            distinct = rng.shuffle(distinct)
+        for k in distinct[: rng.range(len(distinct) // 2, len(distinct))]:
+            ops.append("e:%d:%d" % k)
+            ops.append("d")
+            if rng.chance(1, 4):
+                q = rng.choice(keys)
+                ops.append(rng.choice(["c", "l", "u"]) + ":%d:%d" % q)
+        ops += ["z", "p:%d" % rng.range(1, 5), "d"]
+        return ops
     n = rng.range(3, 40)
     keys = gen_keys(rng, n, rng.choice(["sorted", "reverse", "random", "dups", "extreme", "random"]))
     ops = []
@@ -149,15 +173,16 @@ def run(pid, tier, seed, kinds):
     chk.proof_stage()
     model = C.ocaml_driver("btree")
     rc, out, _ = C.sh([harness], input=b"maxkeys\n")
-    mk = dict(zip(("plain", "delete"), map(int, out.split())))
+    mk = dict(zip(("plain", "delete", "plain6", "delete6"), map(int, out.split())))
     stats = {"dumps": 0, "queries": 0, "seq_histories": 0, "par_histories": 0, "par_steps": 0, "maxKeys": mk}
     nseq = 250 if tier == "quick" else 6000
     hist = []
     for i in range(nseq):
         r = rng.fork("seq%d" % i)
-        kind = r.choice(kinds)
+        base = r.choice(kinds)
+        kind = base + ("6" if r.chance(1, 3) else "")       # a third of the histories on 6-key nodes
         hints = r.below(2)
-        hist.append((kind, hints, seq_history(r, kind)))
+        hist.append((kind, hints, seq_history(r, base)))
     rc, out, err = C.sh([harness], input="".join("seq %s %d %s\n" % (k, h, " ".join(o)) for k, h, o in hist).encode(), timeout=3000)
     lines = out.splitlines()
     distinct = set()
@@ -179,7 +204,7 @@ def run(pid, tier, seed, kinds):
     for i in range(npar):
         r = rng.fork("par%d" % i)
         n, parts = par_history(r)
-        pars.append((r.choice(kinds), r.below(2), n, r.next() % (1 << 31), r.choice([15, 40, 75]), parts))
+        pars.append((r.choice(kinds) + ("6" if r.chance(1, 4) else ""), r.below(2), n, r.next() % (1 << 31), r.choice([15, 40, 75]), parts))
     inp = "".join("par %s %d %d %d %d | %s |\n" % (k, h, n, sd, sw, " | ".join(" ".join("i:%d:%d" % x for x in p) for p in parts)) for k, h, n, sd, sw, parts in pars)
     rc, out, err = C.sh([harness], input=inp.encode(), timeout=3000)
     plines = out.splitlines()
